@@ -107,6 +107,42 @@ fn main() {
         out.case(&c, &obs, n <= 0x7FFF_FFFF && n > 0, "add");
         oracle_add(&mut out, x, n);
     }
+    // call sites: the expressions the code evaluates (anchored by T1) on Timestamp / Serial
+    for i in 0..n_pairs / 4 {
+        let now = interesting(&mut r);
+        let (inc, exp) = match r.below(5) {
+            0 => (now.wrapping_sub(r.below(100) as u32), now.wrapping_add(r.below(100) as u32)),
+            1 => (now.wrapping_sub(0x7FFF_FFFF).wrapping_add(r.below(3) as u32).wrapping_sub(1), now.wrapping_add(0x7FFF_FFFF).wrapping_add(r.below(3) as u32).wrapping_sub(1)),
+            2 => (interesting(&mut r), interesting(&mut r)),
+            3 => (now.wrapping_add(1 + r.below(50) as u32), now.wrapping_add(1000)),
+            _ => (r.u32(), r.u32()),
+        };
+        idx += 1;
+        if !out.wants(idx) { continue; }
+        let c = format!("sigtime {} {} {}", now, inc, exp);
+        out.begin(&c);
+        let (tn, ti, te) = (Timestamp::from(now), Timestamp::from(inc), Timestamp::from(exp));
+        // group.rs: `!(ts_now <= rrsig.expiration() && ts_now >= rrsig.inception())` => reject
+        let ok = tn <= te && tn >= ti;
+        out.case(&c, if ok { "true" } else { "false" }, ok, "sigtime");
+        // RFC 4034 3.1.5 / RFC 1982: accepted iff inception is at most 2^31-1 behind and
+        // expiration at most 2^31-1 ahead of now; invariant under a common shift
+        let want = now.wrapping_sub(inc) < 0x8000_0000 && exp.wrapping_sub(now) < 0x8000_0000;
+        out.check(ok == want, "sig_time_not_rfc1982", &c, &format!("{}", ok));
+        let k = r.u32();
+        let (tn2, ti2, te2) = (Timestamp::from(now.wrapping_add(k)), Timestamp::from(inc.wrapping_add(k)), Timestamp::from(exp.wrapping_add(k)));
+        out.check((tn2 <= te2 && tn2 >= ti2) == ok, "sig_time_shift_dependent", &format!("{} shift {}", c, k), "");
+        if i % 2 == 0 {
+            let (q, z) = pair(&mut r);
+            let c = format!("uptodate {} {}", q, z);
+            let up = Serial(q) >= Serial(z);
+            out.case(&c, if up { "true" } else { "false" }, q != z, "uptodate");
+            out.check(up == (q.wrapping_sub(z) < 0x8000_0000), "ixfr_uptodate_not_rfc1982", &c, "");
+            let c = format!("diffrange {} {}", q, z);
+            let rej = Serial(q) == Serial(z) || Serial(z) < Serial(q);
+            out.case(&c, if rej { "true" } else { "false" }, q != z, "diffrange");
+        }
+    }
     // thorough: sweep all 2^32 differences from several bases (supporting sweep,
     // implementation against the closed form proved equal to the model)
     let mut swept = 0u64;
